@@ -246,3 +246,20 @@ Record request := { rq_files : srcfiles; rq_config : config; rq_name : str; rq_s
     unmap raise), every Program builds its own Resolver, Scope list and Bus. *)
 Definition serve (g : globals) (q : request) : globals * aresult :=
   (g, assemble_source (g_live g) (rq_files q) (rq_config q) (rq_name q) (rq_src q)).
+
+(** ** eval_expression_str(text, resolver): Scanner(lex_expression) + parse_expression_ep + eval_expression
+    (what the command line does with the value of -D NAME=VALUE). *)
+Definition memory_name : str := [109; 101; 109; 111; 114; 121].   (* "memory" *)
+Definition eval_expression_str (prec : prectab) (ev : env) (text : str) : res Z :=
+  match scan_expression memory_name text with
+  | ScanOk toks _ =>
+      match parse_expression_ep (parse_fuel (length toks)) toks with
+      | POk e => eval_expression prec ev e
+      | PErr k _ => Err k
+      | PUnrep _ => Err EOther
+      | PFuel => OutOfFuel
+      end
+  | ScanErr e => match se_quoted e with Some _ => Err EScan | None => Err EIndex end
+  | ScanStuck => Err EOther
+  | ScanOutOfFuel => OutOfFuel
+  end.
